@@ -1,6 +1,7 @@
 import TsVerif.Common.IO
 import TsVerif.Common.Tree
 import TsVerif.C14.Lex
+import TsVerif.C14.Sep
 /-!
 Driver for C14.  Input: `set <id> <tokenset>` / `kw <idx,…|->` / `s <codepoints> <real leaves|E|->` / `endset <id>`.
 Output per set: `S-<id> corr=… judge=… strings=… …`.
@@ -149,6 +150,72 @@ def isExtraOf (shape : Nat) (c : Nat) : Bool :=
   | 4 => c == 32 || c == 9
   | _ => (9 ≤ c && c ≤ 13) || c == 32
 
+/-- the characters of an extras shape (white space only) -/
+def extraCharsOf (shape : Nat) : List Nat :=
+  match shape with
+  | 1 => [32, 10]
+  | 2 => [32]
+  | 3 => [32, 10]
+  | 4 => [32, 9]
+  | _ => [9, 10, 11, 12, 13, 32]
+
+/-- some token can BEGIN with a character that is also an extra: the set is lexed by the separator-aware
+model `sepScan` (TsVerif/C14/Sep.lean) instead of `skipExtras` + `lexScan` -/
+def overlapsExtras (si : SetInfo) : Bool :=
+  si.toks.any (fun t => (extraCharsOf si.extras).any (fun c => !(Regex.deriv c t.re).isEmpty))
+
+/-- JUDGE for such sets ("extras are skipped between tokens", not tokens): walking the REAL tokens, no
+position of a skipped gap is the start of a valid token of precedence ≥ 0 (the separators' precedence);
+returns the first offending position -/
+def skippedToken (si : SetInfo) (input : List Nat) (real : List (Nat × Nat × Nat)) : Option Nat :=
+  let nonNeg : Nat → Bool := fun i => decide ((tokAt si.toks i).prec ≥ 0)
+  let gaps : List (Nat × Nat) := (real.foldl (fun (acc : List (Nat × Nat) × Nat) (t : Nat × Nat × Nat) => (acc.1 ++ [(acc.2, t.2.1)], t.2.2)) ([], 0)) |>
+    (fun (acc : List (Nat × Nat) × Nat) => acc.1 ++ [(acc.2, input.length)])
+  gaps.findSome? (fun (p, s) => (List.range (s - p)).findSome? (fun d =>
+    match refToken si.toks (validAt si.toks nonNeg d) (input.drop (p + d)) with
+    | some _ => some (p + d)
+    | none => none))
+
+inductive RefLex where
+  | tok (i s e : Nat)
+  | fin
+  | err
+
+/-- the documented reading for sets in which tokens can begin with extras characters: extras are skipped
+only up to the FIRST position where a valid token matches; there the documented order chooses -/
+def refLexOverlap (si : SetInfo) (isExtra : Nat → Bool) (input : List Nat) : RefLex :=
+  let rec go (fuel d : Nat) (rest : List Nat) : RefLex :=
+    match fuel with
+    | 0 => .err
+    | f + 1 =>
+      match rest with
+      | [] => .fin
+      | c :: more =>
+        match refToken si.toks (validAt si.toks (fun _ => true) d) rest with
+        | some (i, n) => .tok i d (d + n)
+        | none => if isExtra c then go f (d + 1) more else .err
+  go (input.length + 1) 0 input
+
+/-- first deviation of the separator-aware model (= the real lexer, by correspondence) from that reading:
+"" none, "sepeof" = trailing extras are rejected (the model/real lexer reports an error where only extras
+remain), "sepabsorb" = the same token but its extent also covers extras next to it, "other" anything else -/
+def overlapDeviation (si : SetInfo) (isExtra : Nat → Bool) (input : List Nat) : String :=
+  let rec go (fuel : Nat) (rest : List Nat) : String :=
+    match fuel with
+    | 0 => ""
+    | f + 1 =>
+      let m := lexOneSep si.toks (fun _ => true) isExtra rest
+      match m, refLexOverlap si isExtra rest with
+      | none, .fin => if sepAtEof si.toks (fun _ => true) isExtra rest {} then "" else "sepeof"
+      | none, .err => ""
+      | none, .tok _ _ _ => "other"
+      | some (i, s, e), .tok i' s' e' =>
+        if i == i' && s == s' && e == e' then (if e == 0 then "" else go f (rest.drop e))
+        else if i == i' && s ≤ s' && e' ≤ e then "sepabsorb"
+        else "other"
+      | some _, _ => "other"
+  go (input.length + 1) input
+
 def chooser (si : SetInfo) (useRef : Bool) : Nat → List Nat → Option Cand := fun off =>
   let validMain : Nat → Bool := validAt si.toks (fun i => !si.kws.contains i) off
   let validKw : Nat → Bool := fun i => si.kws.contains i
@@ -204,6 +271,12 @@ structure Tally where
   firstOvertake : String := ""
   firstOther : String := ""
   tokens : Nat := 0
+  overlapStrings : Nat := 0
+  sepSame : Nat := 0
+  sepEof : Nat := 0
+  sepAbsorb : Nat := 0
+  firstSepEof : String := ""
+  firstSepAbsorb : String := ""
   deriving Inhabited
 
 /-- token list of a two-mode set: `mx<extras>f…;prec,isString,mask,AST;…` -/
@@ -425,6 +498,31 @@ def evalString (si : SetInfo) (cps : String) (input : List Nat) (r : Option (Lis
   let inp0 := skipExtras isExtra input
   let nt := ((candidates si.toks (fun _ => true) inp0).map (·.1)).eraseDups.length ≥ 2
   let a := if nt then { a with nontrivial := a.nontrivial + 1 } else a
+  -- token sets in which a token can begin with an extras character: separator-aware model, and the
+  -- "no token is skipped as an extra" judge instead of the position-by-position documented choice
+  if overlapsExtras si && si.word.isNone then
+    let msep := tokenizeSep si.toks (fun _ => true) isExtra (input.length + 2) 0 input
+    let a := { a with nontrivial := a.nontrivial + 1, overlapStrings := a.overlapStrings + 1 }
+    let a := match overlapDeviation si isExtra input with
+      | "sepeof" => { a with dev := a.dev + 1, sepEof := a.sepEof + 1, firstSepEof := if a.firstSepEof == "" then cps else a.firstSepEof }
+      | "sepabsorb" => { a with dev := a.dev + 1, sepAbsorb := a.sepAbsorb + 1, firstSepAbsorb := if a.firstSepAbsorb == "" then cps else a.firstSepAbsorb }
+      | "other" => { a with dev := a.dev + 1, other := a.other + 1, firstOther := if a.firstOther == "" then cps else a.firstOther }
+      | _ => a
+    let a := if msep != r then { a with corrBad := a.corrBad + 1, firstCorr := if a.firstCorr == "" then cps else a.firstCorr } else a
+    match r with
+    | some real =>
+      match skippedToken si input real with
+      | some _ => { a with dev := a.dev + 1, other := a.other + 1, firstOther := if a.firstOther == "" then cps else a.firstOther }
+      | none => a
+    | none => a
+  else
+  -- where no token can begin with an extras character the separator-aware model must be the old one
+  -- (`skipExtras` + `lexScan`): evaluated on every such string of the sets without word token / inner precedences
+  let a := if si.word.isNone && !si.toks.any (fun t => !t.alts.isEmpty) then
+      let msep := tokenizeSep si.toks (fun _ => true) isExtra (input.length + 2) 0 input
+      if msep != mscan then { a with corrBad := a.corrBad + 1, firstCorr := if a.firstCorr == "" then cps else a.firstCorr }
+      else { a with sepSame := a.sepSame + 1 }
+    else a
   let a := if mscan != r then { a with corrBad := a.corrBad + 1, firstCorr := if a.firstCorr == "" then cps else a.firstCorr } else a
   if mref != r && !si.toks.any (fun t => !t.alts.isEmpty) then
     let kind := firstDiffKind si cs cr input
@@ -476,8 +574,9 @@ def step (s : St) (line : String) : IO St := do
     let best := s.variants.foldl (fun (b : List Nat × Tally) v => if v.2.corrBad < b.2.corrBad then v else b) s.variants[0]!
     let a := best.2
     let corr := if a.corrBad == 0 then "ok" else s!"DIFF {a.firstCorr}"
-    let judge := if a.other > 0 then s!"FAIL other {a.firstOther}" else if a.overtake > 0 then s!"FAIL overtake {a.firstOvertake}" else "ok"
-    IO.println s!"S-{id} corr={corr} judge={judge} strings={a.strings} errors={a.errors} nontrivial={a.nontrivial} corrbad={a.corrBad} docdev={a.dev} overtake={a.overtake} other={a.other} tokens={a.tokens} ntok={s.si.toks.length} word={s.si.word.isSome} keywords={best.1.length} unclassified={s.si.ambig.length}"
+    let judge := if a.other > 0 then s!"FAIL other {a.firstOther}" else if a.overtake > 0 then s!"FAIL overtake {a.firstOvertake}"
+      else if a.sepEof > 0 then s!"FAIL sepeof {a.firstSepEof}" else if a.sepAbsorb > 0 then s!"FAIL sepabsorb {a.firstSepAbsorb}" else "ok"
+    IO.println s!"S-{id} corr={corr} judge={judge} overlap={a.overlapStrings} sepsame={a.sepSame} sepeof={a.sepEof} sepabsorb={a.sepAbsorb} strings={a.strings} errors={a.errors} nontrivial={a.nontrivial} corrbad={a.corrBad} docdev={a.dev} overtake={a.overtake} other={a.other} tokens={a.tokens} ntok={s.si.toks.length} word={s.si.word.isSome} keywords={best.1.length} unclassified={s.si.ambig.length}"
     return s
   | _ => return s
 
